@@ -69,7 +69,7 @@ static Verdict judge(bool victim_server, bool ecdhe, bool cauth, bool resumed, c
             if (x.enc && x.t == T_CCS) v.sig = "completed-with-bad-ccs";   // ciphertext in a plaintext CCS record = a CCS body that is not the single byte 01
             break; }
         if (x.t == T_WARN) { v.weak = true; continue; }
-        if (x.t == T_HR && !victim_server && x.intact) { v.weak = true; continue; }
+        if (x.t == T_HR && !victim_server) { v.weak = true; continue; }   // also with a non-empty body: MatrixSSL answers any type-0 message after the handshake with a no_renegotiation warning and carries on
         if (k == e.size()) {   // handshake complete
             if (x.t == T_APP) continue;
             if (x.t == T_CH && victim_server) { v.unk_at = (int) i; break; }
